@@ -193,7 +193,10 @@ func runOne(C []int, enforced int, nreq int, serve func(net.Conn, *obs)) *obs {
 			vs = append(vs, ver(c))
 		}
 	}
-	if sharedOptions {
+	if sharedOptions && len(C) == 5 {
+		// the full set is the library's default: no version option at all (the default list belongs to the package, every
+		// default-configured client of the process uses it)
+	} else if sharedOptions {
 		// configuration is a value: the options are built once per distinct list (with a duplicate and spare capacity, as a caller
 		// slicing a larger array would), reused by every later dial, and the set is given by two options
 		h := len(vs)/2 + 1
